@@ -14,6 +14,17 @@ def gen_cfg(max_ops=3, with_txn=False, with_reopen=True, configs=()):
     return cfg
 
 
+_EMITTED = {}
+
+
+def emit_cached(cfg):
+    """one TLC run per generating configuration and process (several phases of a check look at the same exploration)"""
+    key = open(cfg).read()
+    if key not in _EMITTED:
+        _EMITTED[key] = vlib.tlc_emit("MC_Relational.tla", cfg, timeout=2400)
+    return _EMITTED[key]
+
+
 def class_key(c):
     h = c["hist"]
     l = h[-1]
@@ -25,7 +36,7 @@ def class_key(c):
 def generate(chk, max_ops, with_txn, with_reopen, sample, simulate=None, focus=None, configs=()):
     """-> (cases, stats). focus: optional predicate on a behaviour to keep (before sampling)."""
     cfg = gen_cfg(max_ops, with_txn, with_reopen, configs)
-    gen = vlib.tlc_emit("MC_Relational.tla", cfg, timeout=2400)
+    gen = emit_cached(cfg)
     cases = gen["emitted"]
     total = len(cases)
     if focus:
@@ -57,7 +68,7 @@ def generate(chk, max_ops, with_txn, with_reopen, sample, simulate=None, focus=N
     return cases, walks, {"generated": total, "tlc": gen["stats"], "kept": len(cases), "walks": len(walks)}
 
 
-def replay(chk, cases, schema="pk", config_ops=None, reopen_ops=None, every_step=False):
+def replay(chk, cases, schema="pk", config_ops=None, reopen_ops=None, every_step=False, returning=False):
     """Runs the behaviours; returns list of (hist, divergences, step_index). With every_step, each prefix of a
     history is judged too (used for long walks)."""
     rend, meta = [], {}
@@ -67,7 +78,7 @@ def replay(chk, cases, schema="pk", config_ops=None, reopen_ops=None, every_step
         if every_step:
             hists = [c["hist"][:k] for k in range(1, len(c["hist"]) + 1)]
         for h in hists:
-            case, marks, obs_at = R.render_case(cid, h, schema=schema, config_ops=config_ops, reopen_ops=reopen_ops)
+            case, marks, obs_at = R.render_case(cid, h, schema=schema, config_ops=config_ops, reopen_ops=reopen_ops, returning=returning)
             rend.append(case)
             meta[cid] = (h, marks, obs_at)
             cid += 1
@@ -77,7 +88,7 @@ def replay(chk, cases, schema="pk", config_ops=None, reopen_ops=None, every_step
     out = []
     for r in vlib.read_ndjson(outp):
         h, marks, obs_at = meta[r["id"]]
-        out.append((h, R.compare_case(h, marks, obs_at, r)))
+        out.append((h, R.compare_case(h, marks, obs_at, r, returning=returning)))
     return out
 
 
@@ -114,7 +125,8 @@ def replay_file(chk, path, relevant, signature):
     rep = json.load(open(path))["replay"]
     vlib.build_harness()
     a = rep.get("replay_args", {})
-    res = replay(chk, [{"hist": rep["hist"]}], schema=a.get("schema", "pk"), config_ops=a.get("config_ops"), reopen_ops=a.get("reopen_ops"))
+    res = replay(chk, [{"hist": rep["hist"]}], schema=a.get("schema", "pk"), config_ops=a.get("config_ops"), reopen_ops=a.get("reopen_ops"),
+                 returning=bool(a.get("returning")))
     st = judge(chk, res, relevant, signature)
     print("replayed: %s" % rep["sql"])
     for hist, divs in res:
@@ -140,6 +152,28 @@ def focus_phase(chk, relevant, signature, cfg_name, max_ops, sample, schema="pk_
     st = judge(chk, res, relevant, signature)
     return {"generated": total, "replayed": len(cases), "conforming": st["conforming"], "abandoned": st["abandoned_prefix_diverged"],
             "divergence_signatures": st["divergences"], "tlc": gen["stats"]}
+
+
+def returning_phase(chk, relevant, signature, max_ops=3, sample=2500, with_txn=False, schema="pk"):
+    """C05: the same behaviours with the LAST statement issued as INSERT / UPDATE / DELETE ... RETURNING id, a, b; the
+    returned rows must be the model's `ret` (inserted rows, new images, deleted rows) and everything else as before."""
+    cfg = gen_cfg(max_ops, with_txn, True, ())
+    gen = emit_cached(cfg)
+    cases = [c for c in gen["emitted"] if c["hist"][-1]["op"]["k"] in ("insert", "update", "delete")]
+    total = len(cases)
+    rng = random.Random(chk.seed + 7)
+    if sample and len(cases) > sample:
+        cases = vlib.stratified_sample(cases, class_key, sample, rng)
+    saved = getattr(chk, "replay_args", {})
+    chk.replay_args = {"schema": schema, "config_ops": None, "reopen_ops": None, "returning": True}
+    res = replay(chk, cases, schema=schema, returning=True)
+    st = judge(chk, res, relevant, signature)
+    chk.replay_args = saved
+    nonempty = sum(1 for h, _ in res if h[-1]["ret"])
+    if not nonempty:
+        raise vlib.ToolError("no behaviour with a non-empty RETURNING set was replayed")
+    return {"generated": total, "replayed": len(cases), "with_rows_to_return": nonempty, "conforming": st["conforming"],
+            "abandoned": st["abandoned_prefix_diverged"], "divergence_signatures": st["divergences"]}
 
 
 def standard(chk, relevant, signature, focus=None, with_txn=False, with_reopen=True, schema="pk", config_ops=None,
